@@ -10,12 +10,13 @@ Models, as they are NOW in /repo:
 * `nibabel/dataobj_images.py:391-417`  `uncache`
 * `nibabel/arrayproxy.py:175-208`      `ArrayProxy.__init__` copies shape/dtype/slope/inter out of the
                                         header (`None` slope/inter become 1.0 / 0.0)
-* `nibabel/arrayproxy.py:412-459`      `_get_scaled`, `__array__`, `__getitem__` (fresh array per read)
+* `nibabel/arrayproxy.py:387-461`      `_get_unscaled`, `_get_scaled`, `__array__`, `__getitem__` (fresh array per read)
+* `nibabel/fileslice.py:118-125`       `canonical_slicers`: which slices count as the whole axis
 * `nibabel/volumeutils.py:904-909`     `apply_read_scaling`: (slope, inter) = (1, 0) returns the raw array
 * `nibabel/filebasedimages.py:188`     `self._header = header_class.from_header(header)` (a copy)
-* `nibabel/analyze.py` `AnalyzeImage.__init__`: the image's header copy has slope/inter reset to
-                                        (None, None)
-* `nibabel/analyze.py:961-978`         `from_file_map` gives the proxy its own `header.copy()`
+* `nibabel/analyze.py:912-915`         `AnalyzeImage.__init__`: the image's header copy has slope/inter
+                                        reset to (None, None)
+* `nibabel/analyze.py:929-979`         `from_file_map` gives the proxy its own `header.copy()` (:964)
 
 Conventions.  NumPy arrays live in a heap `List Arr`; the identity of an array is its index (ids are
 never reused, exactly as the harness keeps every returned array alive so `id()` is not recycled).
